@@ -51,7 +51,11 @@ impl Future for VTimer {
     match c.timers.get_mut(&self.id) {
       Some(t) if t.fired => Poll::Ready(()),
       Some(t) => {
-        t.waker = Some(cx.waker().clone());
+        // never drop a waker while holding the clock: it may own the last
+        // reference to a task whose future contains another VTimer
+        let old = std::mem::replace(&mut t.waker, Some(cx.waker().clone()));
+        drop(c);
+        drop(old);
         Poll::Pending
       }
       None => Poll::Ready(()),
@@ -62,9 +66,9 @@ impl Future for VTimer {
 impl Drop for VTimer {
   fn drop(&mut self) {
     let mut c = lock();
-    if c.gen == self.gen {
-      c.timers.remove(&self.id);
-    }
+    let gone = if c.gen == self.gen { c.timers.remove(&self.id) } else { None };
+    drop(c);
+    drop(gone);
   }
 }
 
@@ -88,8 +92,10 @@ pub fn reset() {
   let mut c = lock();
   c.now = 0;
   c.gen += 1;
-  c.timers.clear();
+  let old = std::mem::take(&mut c.timers);
   c.created = 0;
+  drop(c);
+  drop(old); // wakers (and what they own) are dropped outside the clock lock
 }
 
 pub fn now() -> u64 {
